@@ -6,7 +6,7 @@ CONSTANTS
   Encs <- GenEncs
   Zips <- GenZips
   Forms <- GenForms
-  Sizes = {0, 1, 15, 16, 17, 1000}
+  Sizes = {0, 1, 15, 16, 17, 1000, 4096}
   MatrixSizes = {17}
   SizeKms <- QuickSizeKms
   AadSizes = {0, 20}
